@@ -1089,6 +1089,12 @@ class LineEval:
         ty, meta = None, None
         if res.decl is not None:
             ty, meta = decl_type(res.decl, kind)
+        elif res.form is not None and res.open_holes and res.name is not None:
+            # a name with a computed part (dependent_{n}_ctc): typed by its first instance
+            table = res.form.input_map() if kind == 'i' else res.form.field_map()
+            d0 = table.get(res.name.replace('\0', '0'))
+            if d0 is not None:
+                ty, meta = decl_type(d0, kind)
         if kind == 'v' and self.line_oracle is not None and res.decl is not None and not rd.in_loop:
             got = self.line_oracle(res, atomkey, self)
             if got is not _MISSING:
